@@ -1,6 +1,770 @@
-//! C10 — not implemented yet.
-use mc_core::Ctx;
+//! C10 — funds behind a live proof cannot be withdrawn.
+//!
+//! One transaction = prelude (`withdraw 3 F ; take all` → bucket #0) + one instruction sequence over the alphabet
+//! below + a fixed tail. Containers: A's F vault (5 after the prelude; variant with divisibility 2: 5.55), bucket
+//! #0 (3 F), A's non-fungible vault {#1,#2,#3}, plus whatever the sequence puts on the worktop. ALL sequences up
+//! to the bound are executed on the real engine, extended only when the engine executed every instruction
+//! (marker observation, common.rs).
+//!
+//! Reference (written from the statement): per container `total` and a multiset of locked amounts (ids: lock
+//! counts); locked = MAX of the multiset; available = total − locked.
+//!  * MustFail: withdraw / burn / recall / take of more than `available` (or of a locked id) from a container;
+//!    destroying a container that has a live proof (burning it, depositing it, merging it into another bucket);
+//!    a proof of more than the container holds; any amount that is not a multiple of 10^-divisibility.
+//!  * MustPass: withdraw / burn / recall / take of x ≤ available with a legal amount ("overlapping proofs lock the
+//!    maximum, not the sum"), and the tail: after `DROP_ALL_PROOFS` every bucket can be deposited and the FULL
+//!    remaining amount and all remaining ids can be withdrawn again.
+//!  * amount queries (`Account.balance`) = liquid + locked = model total; final balances and supplies = model.
+//!  * Either (informational): popping an empty auth zone, use of consumed proofs / buckets (C09's subject),
+//!    moving a locked bucket onto an empty worktop, zero-size results.
+use crate::common::*;
+use crate::seqx::*;
+use mc_core::{Ctx, Level};
+use mc_ledger::*;
+use radix_transactions::manifest::*;
+use serde_json::{json, Map, Value};
+use std::collections::{BTreeMap, BTreeSet};
 
-pub fn run(_ctx: Ctx) -> ! {
-    mc_core::machinery_error("C10: not implemented")
+/// amounts in thousandths
+type Milli = i64;
+
+fn dec_of(m: Milli) -> Decimal {
+    Decimal::from(m).checked_div(Decimal::from(1000)).unwrap()
+}
+
+#[derive(Clone, Copy, Debug, PartialEq, Eq, PartialOrd, Ord, Hash)]
+pub enum Op {
+    /// Account.create_proof_of_amount(F, milli) → auth zone
+    VProof(i64),
+    /// Account.create_proof_of_non_fungibles(NF, mask) → auth zone
+    NProof(u8),
+    /// CREATE_PROOF_FROM_BUCKET_OF_AMOUNT(bucket, milli) → named proof
+    BProofAmt(u8, i64),
+    /// CREATE_PROOF_FROM_BUCKET_OF_ALL(bucket) → named proof
+    BProofAll(u8),
+    Clone(u8),
+    Drop(u8),
+    Push(u8),
+    Pop,
+    DropAll,
+    DropAuthZone,
+    DropNamed,
+    /// Account.withdraw(F, milli) → worktop
+    Withdraw(i64),
+    WithdrawNf(u8),
+    /// direct vault recall → worktop
+    Recall(i64),
+    RecallNf(u8),
+    /// Account.burn(F, milli)
+    VBurn(i64),
+    /// BURN_RESOURCE(bucket)
+    BurnB(u8),
+    /// RETURN_TO_WORKTOP(bucket)
+    ReturnB(u8),
+    /// TAKE_FROM_WORKTOP(F, milli) → named bucket
+    TakeW(i64),
+    TakeAllW,
+    /// Account.deposit_batch(entire worktop)
+    DepositAll,
+    /// Account.balance(F)
+    AmountV,
+}
+
+impl Op {
+    fn label(&self) -> &'static str {
+        match self {
+            Op::VProof(_) => "vault-proof",
+            Op::NProof(_) => "vault-proof-ids",
+            Op::BProofAmt(..) | Op::BProofAll(_) => "bucket-proof",
+            Op::Clone(_) => "clone-proof",
+            Op::Drop(_) => "drop-proof",
+            Op::Push(_) => "push-proof",
+            Op::Pop => "pop-proof",
+            Op::DropAll | Op::DropAuthZone | Op::DropNamed => "drop-proofs",
+            Op::Withdraw(_) => "withdraw",
+            Op::WithdrawNf(_) => "withdraw-ids",
+            Op::Recall(_) => "recall",
+            Op::RecallNf(_) => "recall-ids",
+            Op::VBurn(_) => "vault-burn",
+            Op::BurnB(_) => "burn-bucket",
+            Op::ReturnB(_) => "return-bucket",
+            Op::TakeW(_) | Op::TakeAllW => "take",
+            Op::DepositAll => "deposit-batch",
+            Op::AmountV => "amount-query",
+        }
+    }
+}
+
+fn mask_set(mask: u8) -> BTreeSet<u64> {
+    (0..8).filter(|i| mask & (1 << i) != 0).map(|i| i as u64 + 1).collect()
+}
+fn mask_ids(mask: u8) -> Vec<NonFungibleLocalId> {
+    mask_set(mask).into_iter().map(NonFungibleLocalId::integer).collect()
+}
+
+// ------------------------------------------------------------------------------------------------
+// reference model
+// ------------------------------------------------------------------------------------------------
+
+#[derive(Clone, Debug, PartialEq, Eq)]
+struct Cont {
+    vault: bool,
+    total: Milli,
+    /// locked amount → number of live proofs of that amount
+    locks: BTreeMap<Milli, u32>,
+    alive: bool,
+}
+
+impl Cont {
+    fn locked(&self) -> Milli {
+        self.locks.keys().next_back().copied().unwrap_or(0)
+    }
+    fn available(&self) -> Milli {
+        self.total - self.locked()
+    }
+    fn is_locked(&self) -> bool {
+        !self.locks.is_empty()
+    }
+}
+
+#[derive(Clone, Debug, PartialEq, Eq)]
+enum ProofM {
+    /// (container, amount)
+    Amount(usize, Milli),
+    /// ids of the non-fungible vault
+    Ids(BTreeSet<u64>),
+}
+
+#[derive(Clone, Debug)]
+pub struct Model {
+    div_step: Milli,
+    conts: Vec<Cont>,
+    /// non-fungible vault
+    nf_vault: BTreeSet<u64>,
+    nf_locks: BTreeMap<u64, u32>,
+    /// non-fungibles on the worktop (never locked: no proof can be made of them in this alphabet)
+    nf_wt: BTreeSet<u64>,
+    wt_f: Option<usize>,
+    named_buckets: Vec<Option<usize>>,
+    named_proofs: Vec<Option<ProofM>>,
+    auth_zone: Vec<ProofM>,
+    burned: Milli,
+    initial_total: Milli,
+}
+
+const VAULT: usize = 0;
+
+impl Model {
+    fn new(vault_after_prelude: Milli, div_step: Milli) -> Model {
+        Model {
+            div_step,
+            conts: vec![
+                Cont { vault: true, total: vault_after_prelude, locks: BTreeMap::new(), alive: true },
+                Cont { vault: false, total: 3000, locks: BTreeMap::new(), alive: true },
+            ],
+            nf_vault: [1u64, 2, 3].into_iter().collect(),
+            nf_locks: BTreeMap::new(),
+            nf_wt: BTreeSet::new(),
+            wt_f: None,
+            named_buckets: vec![Some(1)],
+            named_proofs: vec![],
+            auth_zone: vec![],
+            burned: 0,
+            initial_total: vault_after_prelude + 3000,
+        }
+    }
+    fn legal(&self, a: Milli) -> bool {
+        a % self.div_step == 0
+    }
+    fn lock(&mut self, p: &ProofM) {
+        match p {
+            ProofM::Amount(c, a) => *self.conts[*c].locks.entry(*a).or_insert(0) += 1,
+            ProofM::Ids(s) => {
+                for i in s {
+                    *self.nf_locks.entry(*i).or_insert(0) += 1;
+                }
+            }
+        }
+    }
+    fn unlock(&mut self, p: &ProofM) {
+        match p {
+            ProofM::Amount(c, a) => {
+                let n = self.conts[*c].locks.get_mut(a).expect("model: unlock of unknown lock");
+                *n -= 1;
+                if *n == 0 {
+                    self.conts[*c].locks.remove(a);
+                }
+            }
+            ProofM::Ids(s) => {
+                for i in s {
+                    let n = self.nf_locks.get_mut(i).expect("model: unlock of unknown id lock");
+                    *n -= 1;
+                    if *n == 0 {
+                        self.nf_locks.remove(i);
+                    }
+                }
+            }
+        }
+    }
+    fn new_cont(&mut self, total: Milli) -> usize {
+        self.conts.push(Cont { vault: false, total, locks: BTreeMap::new(), alive: true });
+        self.conts.len() - 1
+    }
+    /// an unlocked fresh bucket (from withdraw / recall) lands on the worktop
+    fn put_fresh(&mut self, amount: Milli) {
+        if amount == 0 {
+            return;
+        }
+        match self.wt_f {
+            Some(e) => self.conts[e].total += amount,
+            None => {
+                let c = self.new_cont(amount);
+                self.wt_f = Some(c);
+            }
+        }
+    }
+    /// take `a` out of a container (vault or bucket) by withdraw / recall / burn / take
+    fn take_from(&mut self, c: usize, a: Milli, what_locked: &'static str) -> Result<(), Expect> {
+        if !self.legal(a) {
+            return Err(Expect::MustFail("amount-violates-divisibility"));
+        }
+        if a > self.conts[c].total {
+            return Err(Expect::MustFail("more-than-container-holds"));
+        }
+        if a > self.conts[c].available() {
+            return Err(Expect::MustFail(what_locked));
+        }
+        self.conts[c].total -= a;
+        Ok(())
+    }
+
+    fn apply(&mut self, op: &Op) -> Expect {
+        match *op {
+            Op::VProof(a) => {
+                if !self.legal(a) {
+                    return Expect::MustFail("amount-violates-divisibility");
+                }
+                if a > self.conts[VAULT].total {
+                    return Expect::MustFail("proof-of-more-than-container-holds");
+                }
+                let p = ProofM::Amount(VAULT, a);
+                self.lock(&p);
+                self.auth_zone.push(p);
+                Expect::ShouldPass
+            }
+            Op::NProof(m) => {
+                let s = mask_set(m);
+                if !s.is_subset(&self.nf_vault) {
+                    return Expect::MustFail("proof-of-absent-id");
+                }
+                let p = ProofM::Ids(s);
+                self.lock(&p);
+                self.auth_zone.push(p);
+                Expect::ShouldPass
+            }
+            Op::BProofAmt(b, _) | Op::BProofAll(b) => {
+                let Some(c) = self.named_buckets.get(b as usize).copied().flatten() else { return Expect::Either("use-of-consumed-bucket", false) };
+                let a = match *op {
+                    Op::BProofAmt(_, a) => a,
+                    _ => self.conts[c].total,
+                };
+                if !self.legal(a) {
+                    return Expect::MustFail("amount-violates-divisibility");
+                }
+                if a > self.conts[c].total {
+                    return Expect::MustFail("proof-of-more-than-container-holds");
+                }
+                if a == 0 {
+                    return Expect::Either("proof-of-zero-amount", false);
+                }
+                let p = ProofM::Amount(c, a);
+                self.lock(&p);
+                self.named_proofs.push(Some(p));
+                Expect::ShouldPass
+            }
+            Op::Clone(p) => {
+                let Some(pm) = self.named_proofs.get(p as usize).cloned().flatten() else { return Expect::Either("use-of-consumed-proof", false) };
+                self.lock(&pm);
+                self.named_proofs.push(Some(pm));
+                Expect::ShouldPass
+            }
+            Op::Drop(p) => {
+                let Some(pm) = self.named_proofs.get(p as usize).cloned().flatten() else { return Expect::Either("use-of-consumed-proof", false) };
+                self.named_proofs[p as usize] = None;
+                self.unlock(&pm);
+                Expect::ShouldPass
+            }
+            Op::Push(p) => {
+                let Some(pm) = self.named_proofs.get(p as usize).cloned().flatten() else { return Expect::Either("use-of-consumed-proof", false) };
+                self.named_proofs[p as usize] = None;
+                self.auth_zone.push(pm);
+                Expect::ShouldPass
+            }
+            Op::Pop => match self.auth_zone.pop() {
+                Some(pm) => {
+                    self.named_proofs.push(Some(pm));
+                    Expect::ShouldPass
+                }
+                None => Expect::Either("pop-from-empty-auth-zone", false),
+            },
+            Op::DropAll | Op::DropAuthZone | Op::DropNamed => {
+                if !matches!(op, Op::DropNamed) {
+                    for pm in std::mem::take(&mut self.auth_zone) {
+                        self.unlock(&pm);
+                    }
+                }
+                if !matches!(op, Op::DropAuthZone) {
+                    for i in 0..self.named_proofs.len() {
+                        if let Some(pm) = self.named_proofs[i].take() {
+                            self.unlock(&pm);
+                        }
+                    }
+                }
+                Expect::ShouldPass
+            }
+            Op::Withdraw(a) | Op::Recall(a) => {
+                if let Err(e) = self.take_from(VAULT, a, "withdraw-of-locked-funds") {
+                    return e;
+                }
+                self.put_fresh(a);
+                Expect::MustPass
+            }
+            Op::VBurn(a) => {
+                if let Err(e) = self.take_from(VAULT, a, "burn-of-locked-funds") {
+                    return e;
+                }
+                self.burned += a;
+                Expect::MustPass
+            }
+            Op::WithdrawNf(m) | Op::RecallNf(m) => {
+                let s = mask_set(m);
+                if !s.is_subset(&self.nf_vault) {
+                    return Expect::MustFail("absent-id");
+                }
+                if s.iter().any(|i| self.nf_locks.contains_key(i)) {
+                    return Expect::MustFail("withdraw-of-locked-id");
+                }
+                for i in &s {
+                    self.nf_vault.remove(i);
+                }
+                self.nf_wt.extend(s);
+                Expect::MustPass
+            }
+            Op::BurnB(b) => {
+                let Some(c) = self.named_buckets.get(b as usize).copied().flatten() else { return Expect::Either("use-of-consumed-bucket", false) };
+                self.named_buckets[b as usize] = None;
+                if self.conts[c].is_locked() {
+                    return Expect::MustFail("burn-of-locked-funds");
+                }
+                let empty = self.conts[c].total == 0;
+                self.burned += self.conts[c].total;
+                self.conts[c].total = 0;
+                self.conts[c].alive = false;
+                if empty {
+                    Expect::Either("burn-empty-bucket", true)
+                } else {
+                    Expect::MustPass
+                }
+            }
+            Op::ReturnB(b) => {
+                let Some(c) = self.named_buckets.get(b as usize).copied().flatten() else { return Expect::Either("use-of-consumed-bucket", false) };
+                self.named_buckets[b as usize] = None;
+                if self.conts[c].total == 0 {
+                    self.conts[c].alive = false;
+                    return Expect::Either("return-empty-bucket", true);
+                }
+                match self.wt_f {
+                    None => {
+                        self.wt_f = Some(c);
+                        if self.conts[c].is_locked() {
+                            Expect::Either("locked-bucket-moved-onto-worktop", true)
+                        } else {
+                            Expect::ShouldPass
+                        }
+                    }
+                    Some(e) => {
+                        if self.conts[c].is_locked() {
+                            return Expect::MustFail("locked-bucket-merged-away");
+                        }
+                        self.conts[e].total += self.conts[c].total;
+                        self.conts[c].total = 0;
+                        self.conts[c].alive = false;
+                        Expect::ShouldPass
+                    }
+                }
+            }
+            Op::TakeW(a) => {
+                if a == 0 {
+                    return Expect::Either("take-zero-amount", false);
+                }
+                let Some(e) = self.wt_f else { return Expect::MustFail("more-than-container-holds") };
+                if !self.legal(a) {
+                    // the whole-bucket move does not look at divisibility; statement silent for that corner
+                    if a == self.conts[e].total {
+                        return Expect::Either("illegal-amount-equal-to-whole-bucket", false);
+                    }
+                    return Expect::MustFail("amount-violates-divisibility");
+                }
+                if a > self.conts[e].total {
+                    return Expect::MustFail("more-than-container-holds");
+                }
+                if a == self.conts[e].total {
+                    // the whole container is handed over, locks stay with it
+                    self.wt_f = None;
+                    self.named_buckets.push(Some(e));
+                    return if self.conts[e].is_locked() { Expect::Either("whole-locked-bucket-taken-from-worktop", true) } else { Expect::MustPass };
+                }
+                if a > self.conts[e].available() {
+                    return Expect::MustFail("take-of-locked-funds");
+                }
+                self.conts[e].total -= a;
+                let c = self.new_cont(a);
+                self.named_buckets.push(Some(c));
+                Expect::MustPass
+            }
+            Op::TakeAllW => match self.wt_f.take() {
+                Some(e) => {
+                    self.named_buckets.push(Some(e));
+                    if self.conts[e].is_locked() {
+                        Expect::Either("whole-locked-bucket-taken-from-worktop", true)
+                    } else {
+                        Expect::ShouldPass
+                    }
+                }
+                None => {
+                    let c = self.new_cont(0);
+                    self.named_buckets.push(Some(c));
+                    Expect::Either("take-all-of-absent-resource", true)
+                }
+            },
+            Op::DepositAll => {
+                if let Some(e) = self.wt_f {
+                    if self.conts[e].is_locked() {
+                        return Expect::MustFail("locked-bucket-merged-away");
+                    }
+                    self.wt_f = None;
+                    self.conts[VAULT].total += self.conts[e].total;
+                    self.conts[e].total = 0;
+                    self.conts[e].alive = false;
+                }
+                let ids = std::mem::take(&mut self.nf_wt);
+                self.nf_vault.extend(ids);
+                Expect::ShouldPass
+            }
+            Op::AmountV => Expect::ShouldPass,
+        }
+    }
+
+    fn sane(&self) -> bool {
+        let f: Milli = self.conts.iter().map(|c| c.total).sum::<Milli>() + self.burned;
+        let mut ids: Vec<u64> = self.nf_vault.iter().chain(self.nf_wt.iter()).copied().collect();
+        ids.sort();
+        // every lock is backed by exactly the live proofs
+        let mut expect_locks: BTreeMap<(usize, Milli), u32> = BTreeMap::new();
+        let mut expect_ids: BTreeMap<u64, u32> = BTreeMap::new();
+        for p in self.auth_zone.iter().chain(self.named_proofs.iter().flatten()) {
+            match p {
+                ProofM::Amount(c, a) => *expect_locks.entry((*c, *a)).or_insert(0) += 1,
+                ProofM::Ids(s) => {
+                    for i in s {
+                        *expect_ids.entry(*i).or_insert(0) += 1;
+                    }
+                }
+            }
+        }
+        let mut have: BTreeMap<(usize, Milli), u32> = BTreeMap::new();
+        for (i, c) in self.conts.iter().enumerate() {
+            for (a, n) in &c.locks {
+                have.insert((i, *a), *n);
+            }
+            if c.locked() > c.total {
+                return false;
+            }
+        }
+        f == self.initial_total && ids == vec![1, 2, 3] && have == expect_locks && expect_ids == self.nf_locks
+    }
+
+    /// the vault's total when queried (liquid + locked)
+    fn vault_total(&self) -> Milli {
+        self.conts[VAULT].total
+    }
+    /// what A holds after the tail ran (everything deposited)
+    fn final_f(&self) -> Milli {
+        self.initial_total - self.burned
+    }
+}
+
+// ------------------------------------------------------------------------------------------------
+// specification for the explorer
+// ------------------------------------------------------------------------------------------------
+
+#[derive(Clone, Copy, Debug, PartialEq, Eq)]
+pub enum Alpha {
+    Full,
+    Core,
+}
+
+pub struct Spec {
+    snap: Snap,
+    w: RWorld,
+    f_vault: NodeId,
+    nf_vault: NodeId,
+    /// vault balance after the prelude
+    vault0: Milli,
+    div_step: Milli,
+    alpha: Alpha,
+}
+
+impl Spec {
+    fn new(divisibility: u8, alpha: Alpha) -> Spec {
+        let (vault0, div_step, total) = match divisibility {
+            2 => (5550, 10, dec!("8.55")),
+            18 => (5000, 1, dec!(8)),
+            _ => unreachable!(),
+        };
+        let (snap, w) = build_rworld(total, divisibility, &[1, 2, 3]);
+        let mut sim = psim_from(&snap);
+        let f_vault = sim.get_component_vaults(w.a, w.f)[0];
+        let nf_vault = sim.get_component_vaults(w.a, w.nf)[0];
+        Spec { snap, w, f_vault, nf_vault, vault0, div_step, alpha }
+    }
+}
+
+impl SeqSpec for Spec {
+    type Op = Op;
+    type Model = Model;
+    fn world(&self) -> (&Snap, &RWorld) {
+        (&self.snap, &self.w)
+    }
+    fn init(&self) -> Model {
+        Model::new(self.vault0, self.div_step)
+    }
+    fn ops(&self, m: &Model) -> Vec<Op> {
+        let full = self.alpha == Alpha::Full;
+        let mut v = vec![];
+        if full {
+            v.extend([Op::VProof(1000), Op::VProof(2000), Op::VProof(5000), Op::VProof(6000), Op::VProof(1), Op::NProof(0b001), Op::NProof(0b011)]);
+        } else {
+            v.extend([Op::VProof(2000), Op::VProof(5000), Op::NProof(0b011)]);
+        }
+        for (b, c) in m.named_buckets.iter().enumerate() {
+            let b = b as u8;
+            if c.is_some() {
+                v.push(Op::BProofAmt(b, 1000));
+                if full {
+                    v.push(Op::BProofAmt(b, 3000));
+                }
+                v.push(Op::BProofAll(b));
+                v.push(Op::BurnB(b));
+                v.push(Op::ReturnB(b));
+            } else if full {
+                v.push(Op::ReturnB(b)); // consumed: one representative
+            }
+        }
+        for (p, pm) in m.named_proofs.iter().enumerate() {
+            let p = p as u8;
+            if pm.is_some() {
+                v.push(Op::Clone(p));
+                v.push(Op::Drop(p));
+                v.push(Op::Push(p));
+            } else if full {
+                v.push(Op::Drop(p)); // consumed: one representative
+            }
+        }
+        v.push(Op::Pop);
+        v.push(Op::DropAll);
+        if full {
+            v.push(Op::DropAuthZone);
+            v.push(Op::DropNamed);
+            v.extend([Op::Withdraw(1000), Op::Withdraw(3000), Op::Withdraw(4000), Op::Withdraw(5000), Op::Withdraw(1)]);
+            v.extend([Op::WithdrawNf(0b001), Op::WithdrawNf(0b100), Op::WithdrawNf(0b111)]);
+            v.extend([Op::Recall(1000), Op::Recall(5000), Op::RecallNf(0b001)]);
+            v.extend([Op::VBurn(1000), Op::VBurn(5000)]);
+            v.extend([Op::TakeW(1000), Op::TakeW(3000), Op::TakeAllW]);
+        } else {
+            v.extend([Op::Withdraw(3000), Op::Withdraw(4000), Op::WithdrawNf(0b001), Op::Recall(4000), Op::TakeW(1000)]);
+        }
+        v.push(Op::DepositAll);
+        v.push(Op::AmountV);
+        v
+    }
+    fn label(&self, op: &Op) -> &'static str {
+        op.label()
+    }
+    fn apply(&self, m: &mut Model, op: &Op) -> Expect {
+        m.apply(op)
+    }
+    fn model_sane(&self, m: &Model) -> bool {
+        m.sane()
+    }
+    fn prelude(&self) -> Vec<InstructionV1> {
+        vec![
+            call_method(self.w.a, "withdraw", &(self.w.f, dec!(3))),
+            InstructionV1::TakeAllFromWorktop(TakeAllFromWorktop { resource_address: self.w.f }),
+        ]
+    }
+    fn instruction(&self, op: &Op) -> InstructionV1 {
+        let w = &self.w;
+        let b = |i: u8| ManifestBucket(i as u32);
+        let p = |i: u8| ManifestProof(i as u32);
+        match *op {
+            Op::VProof(a) => call_method(w.a, "create_proof_of_amount", &(w.f, dec_of(a))),
+            Op::NProof(m) => call_method(w.a, "create_proof_of_non_fungibles", &(w.nf, mask_ids(m))),
+            Op::BProofAmt(i, a) => InstructionV1::CreateProofFromBucketOfAmount(CreateProofFromBucketOfAmount { bucket_id: b(i), amount: dec_of(a) }),
+            Op::BProofAll(i) => InstructionV1::CreateProofFromBucketOfAll(CreateProofFromBucketOfAll { bucket_id: b(i) }),
+            Op::Clone(i) => InstructionV1::CloneProof(CloneProof { proof_id: p(i) }),
+            Op::Drop(i) => InstructionV1::DropProof(DropProof { proof_id: p(i) }),
+            Op::Push(i) => InstructionV1::PushToAuthZone(PushToAuthZone { proof_id: p(i) }),
+            Op::Pop => InstructionV1::PopFromAuthZone(PopFromAuthZone),
+            Op::DropAll => InstructionV1::DropAllProofs(DropAllProofs),
+            Op::DropAuthZone => InstructionV1::DropAuthZoneProofs(DropAuthZoneProofs),
+            Op::DropNamed => InstructionV1::DropNamedProofs(DropNamedProofs),
+            Op::Withdraw(a) => call_method(w.a, "withdraw", &(w.f, dec_of(a))),
+            Op::WithdrawNf(m) => call_method(w.a, "withdraw_non_fungibles", &(w.nf, mask_ids(m))),
+            Op::Recall(a) => call_vault(self.f_vault, "recall", &(dec_of(a),)),
+            Op::RecallNf(m) => call_vault(self.nf_vault, "recall_non_fungibles", &(mask_ids(m),)),
+            Op::VBurn(a) => call_method(w.a, "burn", &(w.f, dec_of(a))),
+            Op::BurnB(i) => InstructionV1::BurnResource(BurnResource { bucket_id: b(i) }),
+            Op::ReturnB(i) => InstructionV1::ReturnToWorktop(ReturnToWorktop { bucket_id: b(i) }),
+            Op::TakeW(a) => InstructionV1::TakeFromWorktop(TakeFromWorktop { resource_address: w.f, amount: dec_of(a) }),
+            Op::TakeAllW => InstructionV1::TakeAllFromWorktop(TakeAllFromWorktop { resource_address: w.f }),
+            Op::DepositAll => call_method(w.a, "deposit_batch", &(ManifestExpression::EntireWorktop,)),
+            Op::AmountV => call_method(w.a, "balance", &(w.f,)),
+        }
+    }
+    /// drop every proof, put every live bucket back, deposit, then demand that the FULL amount and all ids can
+    /// be withdrawn again (and put them back so that the final balances can be read)
+    fn tail(&self, m: &Model) -> Vec<InstructionV1> {
+        let w = &self.w;
+        let mut t = vec![InstructionV1::DropAllProofs(DropAllProofs)];
+        for (b, c) in m.named_buckets.iter().enumerate() {
+            if c.is_some() {
+                t.push(InstructionV1::ReturnToWorktop(ReturnToWorktop { bucket_id: ManifestBucket(b as u32) }));
+            }
+        }
+        t.push(call_method(w.a, "deposit_batch", &(ManifestExpression::EntireWorktop,)));
+        t.push(call_method(w.a, "withdraw", &(w.f, dec_of(m.final_f()))));
+        t.push(call_method(w.a, "withdraw_non_fungibles", &(w.nf, mask_ids(0b111))));
+        t.push(call_method(w.a, "deposit_batch", &(ManifestExpression::EntireWorktop,)));
+        t
+    }
+    fn end(&self, _m: &Model) -> Expect {
+        Expect::MustPass
+    }
+    fn check_success(&self, sim: &mut PSim, m: &Model, seq: &[Op], outputs: &[InstructionOutput], first: usize) -> Result<Value, (String, String)> {
+        let w = &self.w;
+        // amount queries: replay the model along the sequence to know the expected total at each query
+        let mut mm = self.init();
+        for (i, op) in seq.iter().enumerate() {
+            mm.apply(op);
+            if let Op::AmountV = op {
+                let got: Option<Decimal> = match outputs.get(first + i) {
+                    Some(InstructionOutput::CallReturn(bytes)) => scrypto_decode(bytes).ok(),
+                    _ => None,
+                };
+                let want = dec_of(mm.vault_total());
+                if got != Some(want) {
+                    return Err(("amount-query-differs".into(), format!("amount query #{i} returned {got:?}, model total (liquid + locked) = {want}")));
+                }
+            }
+        }
+        let bf = sim.get_component_balance(w.a, w.f);
+        let bids = nf_ids_of(sim, w.a, w.nf);
+        let sf = sim.get_fungible_resource_total_supply(w.f);
+        let want = dec_of(m.final_f());
+        let all: BTreeSet<u64> = [1u64, 2, 3].into_iter().collect();
+        if bf != want || sf != want || bids != all {
+            return Err(("final-balances-differ".into(), format!("after the transaction A holds {bf} F (supply {sf}), ids {bids:?}; model: {want} and {all:?}")));
+        }
+        Ok(json!({"A_f": bf.to_string(), "supply": sf.to_string()}))
+    }
+    fn parse_op(&self, s: &str) -> Option<Op> {
+        let (name, a) = split_op(s);
+        let a0 = a.first().copied();
+        let a1 = a.get(1).copied();
+        Some(match (name, a0, a1) {
+            ("VProof", Some(x), _) => Op::VProof(x),
+            ("NProof", Some(x), _) => Op::NProof(x as u8),
+            ("BProofAmt", Some(b), Some(x)) => Op::BProofAmt(b as u8, x),
+            ("BProofAll", Some(b), _) => Op::BProofAll(b as u8),
+            ("Clone", Some(x), _) => Op::Clone(x as u8),
+            ("Drop", Some(x), _) => Op::Drop(x as u8),
+            ("Push", Some(x), _) => Op::Push(x as u8),
+            ("Pop", None, _) => Op::Pop,
+            ("DropAll", None, _) => Op::DropAll,
+            ("DropAuthZone", None, _) => Op::DropAuthZone,
+            ("DropNamed", None, _) => Op::DropNamed,
+            ("Withdraw", Some(x), _) => Op::Withdraw(x),
+            ("WithdrawNf", Some(x), _) => Op::WithdrawNf(x as u8),
+            ("Recall", Some(x), _) => Op::Recall(x),
+            ("RecallNf", Some(x), _) => Op::RecallNf(x as u8),
+            ("VBurn", Some(x), _) => Op::VBurn(x),
+            ("BurnB", Some(x), _) => Op::BurnB(x as u8),
+            ("ReturnB", Some(x), _) => Op::ReturnB(x as u8),
+            ("TakeW", Some(x), _) => Op::TakeW(x),
+            ("TakeAllW", None, _) => Op::TakeAllW,
+            ("DepositAll", None, _) => Op::DepositAll,
+            ("AmountV", None, _) => Op::AmountV,
+            _ => return None,
+        })
+    }
+}
+
+fn variant(tag: &str) -> (u8, Alpha) {
+    let div = if tag.contains("div2") { 2 } else { 18 };
+    let alpha = if tag.starts_with("core") { Alpha::Core } else { Alpha::Full };
+    (div, alpha)
+}
+
+pub fn run(ctx: Ctx) -> ! {
+    if let Some(case) = ctx.read_replay_case() {
+        let tag = case.get("variant").and_then(|v| v.as_str()).unwrap_or("full-div2").to_string();
+        let (d, a) = variant(&tag);
+        let spec = Spec::new(d, a);
+        replay(&ctx, &spec, &tag, &case);
+        ctx.finish(Level::ModelChecking, "replay", 0, false, Map::new(), &[]);
+    }
+    if std::env::var("VERIF_COUNT").is_ok() {
+        for tag in ["full-div2", "full-div18", "core-div2"] {
+            let (d, a) = variant(tag);
+            println!("{tag}:");
+            count_only(&Spec::new(d, a), if a == Alpha::Full { 4 } else { 6 });
+        }
+        std::process::exit(2);
+    }
+    // (variant, length, wall cap)
+    let plan: Vec<(&str, usize, f64)> = if ctx.quick() {
+        vec![("full-div2", 3, 25.0), ("full-div18", 3, 40.0), ("core-div2", 4, 55.0)]
+    } else {
+        vec![("full-div2", 4, 400.0), ("full-div18", 4, 800.0), ("core-div2", 5, 1100.0)]
+    };
+    let mut cov = Map::new();
+    let (mut executed, mut nontrivial, mut capped) = (0, 0, false);
+    let mut bounds = vec![];
+    for (i, (tag, len, cap)) in plan.into_iter().enumerate() {
+        let (d, a) = variant(tag);
+        let spec = Spec::new(d, a);
+        let st = explore(&ctx, &spec, i, tag, len, cap, &mut cov);
+        executed += st.executed;
+        nontrivial += st.nontrivial;
+        capped |= st.capped;
+        bounds.push(format!("{tag}: all sequences of length <= {}{}", st.completed, if st.capped { " (wall cap hit before the planned bound)" } else { "" }));
+    }
+    cov.insert("states".into(), json!(nontrivial));
+    cov.insert("transitions".into(), json!(executed));
+    cov.insert("traces_validated_against_impl".into(), json!(executed));
+    cov.insert("bounds".into(), json!(bounds));
+    cov.insert("caps_hit".into(), json!(capped));
+    ctx.finish(
+        Level::ModelChecking,
+        "every instruction sequence up to the bound over the alphabet (after the fixed prelude that creates a 3 F bucket) is executed as one transaction on the real engine from the same snapshot, followed by the fixed tail (drop all proofs, deposit everything, withdraw the full amount and all ids again); a sequence is extended only if the engine executed all its instructions (marker fee lock observed in the receipt); non-trivial = sequences whose instructions all executed",
+        nontrivial,
+        !capped,
+        cov,
+        &[
+            "account A and the marker account have owner rule allow_all so that DROP_ALL_PROOFS cannot remove authority",
+            "proofs composed by the auth zone (CREATE_PROOF_FROM_AUTH_ZONE_*) are not in the alphabet",
+            "bucket and proof arguments range over all live named objects plus one representative instruction per consumed object",
+        ],
+    )
 }
